@@ -1,0 +1,20 @@
+//go:build !verif
+
+// Package vt holds verification hooks. Without the "verif" build tag every
+// hook is a no-op and call sites (guarded by `if vt.On`) are dead code.
+package vt
+
+// On reports whether verification hooks are compiled in.
+const On = false
+
+// Emit records a trace event (no-op without the verif tag).
+func Emit(ev string, kv ...any) {}
+
+// Yield perturbs the schedule at a named point (no-op without the verif tag).
+func Yield(point string) {}
+
+// Gate blocks at a named point until released (no-op without the verif tag).
+func Gate(point string) {}
+
+// ID returns a small stable id for an object (0 without the verif tag).
+func ID(obj any) int { return 0 }
